@@ -1098,6 +1098,15 @@ class Interp(object):
         clss = tv.items if isinstance(tv, VTuple) else [tv]
         conds = []
         for c in clss:
+            if isinstance(c, VExternal):
+                # an exception class of a dependency the class table does not know (e.g. binascii.Error):
+                # whether it catches is left open -- both outcomes are explored
+                if isinstance(exc, VRef):
+                    conds.append(Z.fresh('caught_by_%s' % c.name.replace('.', '_'), Z.Bool))
+                else:
+                    conds.append(Z.func('isinstance_of:%s' % c.name, Z.Obj, Z.Bool)(exc.z))
+                ctx.notes.append('except %s: class unknown to the class table, catch left open' % c.name)
+                continue
             if not isinstance(c, VClass):
                 self.unsupported('except clause with non-class %r' % (c,), h)
             conds.append(self.exc_isinstance(ctx, exc, c.name))
